@@ -233,6 +233,13 @@ class LazyList:
         from vyxal.elements import vy_print, vy_repr
 
         ctx.stacks.append(self.generated)
+        try:
+            self._output(end, ctx, vy_print, vy_repr)
+        finally:
+            # (the items are only registered as a stack while printing)
+            ctx.stacks.pop()
+
+    def _output(self, end, ctx, vy_print, vy_repr):
         vy_print("⟨ " if ctx.vyxal_lists else "[", "", ctx=ctx)
         for lhs in self.generated[:-1]:
             vy_print(lhs, " | " if ctx.vyxal_lists else ", ", ctx=ctx)
